@@ -1,16 +1,247 @@
-import Pms.Model.Hess
-import Pms.GenR.Hess
+import Pms.Lemmas.Hess
 import Pms.Gen.HessTab
+import Pms.Lemmas.HessCalc
+import Pms.Props.C12
+import Mathlib.Algebra.Order.Chebyshev
+import Mathlib.Algebra.BigOperators.Field
+/-!
+# C11 — the saved Hessian is the mass-weighted second derivative of the documented pair energy
 
-/-! # C11 — Hessian (stub; theorems follow) -/
+`Pms.GenR.Hess.*` (block entries, placement, `dudr2j`, prefactor, cutoff test, right-hand sides of the two assembly
+statements, `frequencies`) and `Pms.Gen.HessTab.*` (slice bounds, operators, loop headers) are REGENERATED from
+`hessians.py` / `vector.py` on every run; `Pms.GenR.Pair.*` are C12's regenerated s1/s1rc/s2.  The model
+`Pms.Hess.hessian` (hand-written control structure over these terms) is what the correspondence compares with the real
+routine.  Every theorem holds for all system sizes, dimensions named, positions, parameters.
+-/
+open Finset Real
 namespace Pms.C11
+open Pms Pms.Hess Pms.GenR.Hess
 
-/-- the regenerated structural facts the hand-written model `Pms.Hess.assemble` relies on -/
+/-- the primitives of the routine over ℝ: every formula is the term regenerated from the source -/
+noncomputable def realPrims (caller : ℝ → ℝ → ℝ → ℝ → ℝ × ℝ × ℝ) : Prims ℝ where
+  sqrt := Real.sqrt
+  ofNat := fun n => (n : ℝ)
+  blk2 := GenR.Hess.blk2
+  blk3 := GenR.Hess.blk3
+  zDefault := GenR.Hess.z_default
+  dudr2j := GenR.Hess.dudr2j
+  prefactor := GenR.Hess.prefactor
+  cond := GenR.Hess.cond
+  asm1 := GenR.Hess.asm1_rhs
+  asm2 := GenR.Hess.asm2_rhs
+  caller := caller
+  frequencies := GenR.Hess.frequencies
+
+/-- mass of particle i: `masses[itype + 1]` -/
+def massOf (S : Sys ℝ) (i : ℕ) : ℝ := S.masses (tIdx S i + 1)
+
+theorem inCut_self (caller) (S : Sys ℝ) (i : ℕ) : inCut (realPrims caller) S i i = false := by
+  simp [inCut, realPrims, GenR.Hess.cond]
+
+/-- **assembly**: the matrix built by the loop nest (regenerated `+=` / `=` right-hand sides, slice bounds, prefactor)
+is `M^(-1/2) · H · M^(-1/2)` where `H` is the Hessian of the sum of the pair energies inside the cutoff, for every
+system size, dimension, potential (`caller` arbitrary) and positive masses. -/
+theorem C11_assembly (caller : ℝ → ℝ → ℝ → ℝ → ℝ × ℝ × ℝ) (S : Sys ℝ) (hm : ∀ i < S.n, 0 < massOf S i)
+    (i j a b : ℕ) (hi : i < S.n) (hj : j < S.n) (ha : a < S.d) (hb : b < S.d) :
+    hessian (realPrims caller) S (i * S.d + a) (j * S.d + b)
+      = specD Real.sqrt S.n (massOf S) (inCut (realPrims caller) S) (block (realPrims caller) S) i a j b := by
+  unfold hessian
+  rw [assemble_spec S.n S.d _ _ _ (inCut_self caller S) i j a b hi hj ha hb]
+  unfold specD specH
+  have hmi := hm i hi
+  have hmj := hm j hj
+  by_cases hij : i = j
+  · subst hij
+    simp only [if_true, sumRange_eq]
+    rw [Real.mul_self_sqrt hmi.le, Finset.sum_div]
+    refine Finset.sum_congr rfl fun k _ => ?_
+    by_cases hk : k = i
+    · subst hk; simp [inCut_self]
+    · simp only [hk, ne_eq, not_false_eq_true, true_and]
+      split
+      · simp only [rhs1, realPrims, asm1_rhs, GenR.Hess.prefactor, massOf] at *
+        rw [Real.sqrt_mul_self hmi.le]
+        norm_num
+        rfl
+      · simp
+  · simp only [hij, if_false]
+    split
+    · simp only [rhs2, realPrims, asm2_rhs, GenR.Hess.prefactor, GenR.Hess.dudr2j, massOf] at *
+      rw [Real.sqrt_mul hmi.le]
+      norm_num
+      ring
+    · simp
+
+
+/-! ### symmetry -/
+
+theorem dist2_symm (S : Sys ℝ) (hanti : ∀ i j k, S.disp j i k = - S.disp i j k) (i j : ℕ) : dist2 S j i = dist2 S i j := by
+  unfold dist2
+  rw [sumRange_eq, sumRange_eq]
+  exact Finset.sum_congr rfl fun k _ => by rw [hanti i j k]; ring
+
+theorem block_swap (caller) (S : Sys ℝ) (hanti : ∀ i j k, S.disp j i k = - S.disp i j k)
+    (hpar : ∀ s t, S.eps s t = S.eps t s ∧ S.sig s t = S.sig t s ∧ S.rcut s t = S.rcut t s) (i j a b : ℕ) :
+    block (realPrims caller) S j i b a = block (realPrims caller) S i j a b := by
+  have hd : Hess.dist (realPrims caller) S j i = Hess.dist (realPrims caller) S i j := by
+    unfold Hess.dist; rw [dist2_symm S hanti]
+  have ht : derivs (realPrims caller) S j i = derivs (realPrims caller) S i j := by
+    unfold derivs
+    rw [hd, (hpar (tIdx S j) (tIdx S i)).1, (hpar (tIdx S j) (tIdx S i)).2.1, (hpar (tIdx S j) (tIdx S i)).2.2]
+  unfold block
+  simp only [hd, ht, hanti i j]
+  split
+  · show GenR.Hess.blk2 _ _ _ _ _ _ _ b a = GenR.Hess.blk2 _ _ _ _ _ _ _ a b
+    rw [blk2_even _ _ (realPrims caller).zDefault, blk2_symm]
+  · show GenR.Hess.blk3 _ _ _ _ _ _ _ b a = GenR.Hess.blk3 _ _ _ _ _ _ _ a b
+    rw [blk3_even, blk3_symm]
+
+theorem block_symm_ab (caller) (S : Sys ℝ) (i j a b : ℕ) :
+    block (realPrims caller) S i j b a = block (realPrims caller) S i j a b := by
+  unfold block
+  split
+  · exact blk2_symm _ _ _ _ _ _ _ _ _
+  · exact blk3_symm _ _ _ _ _ _ _ _ _
+
+theorem inCut_symm (caller) (S : Sys ℝ) (hanti : ∀ i j k, S.disp j i k = - S.disp i j k)
+    (hpar : ∀ s t, S.eps s t = S.eps t s ∧ S.sig s t = S.sig t s ∧ S.rcut s t = S.rcut t s) (i j : ℕ) :
+    inCut (realPrims caller) S j i = inCut (realPrims caller) S i j := by
+  rw [Bool.eq_iff_iff]
+  simp only [inCut, realPrims, GenR.Hess.cond, Hess.dist, Bool.and_eq_true, decide_eq_true_eq]
+  rw [dist2_symm S hanti i j, (hpar (tIdx S j) (tIdx S i)).2.2]
+  constructor <;> rintro ⟨h1, h2⟩ <;> exact ⟨h1.symm, h2⟩
+
+/-- **symmetry**: with minimum-image displacements that are odd under exchange of the particles (C02) and symmetric
+parameter matrices the saved matrix is symmetric -/
+theorem C11_symmetric (caller : ℝ → ℝ → ℝ → ℝ → ℝ × ℝ × ℝ) (S : Sys ℝ) (hm : ∀ i < S.n, 0 < massOf S i)
+    (hanti : ∀ i j k, S.disp j i k = - S.disp i j k)
+    (hpar : ∀ s t, S.eps s t = S.eps t s ∧ S.sig s t = S.sig t s ∧ S.rcut s t = S.rcut t s)
+    (i j a b : ℕ) (hi : i < S.n) (hj : j < S.n) (ha : a < S.d) (hb : b < S.d) :
+    hessian (realPrims caller) S (i * S.d + a) (j * S.d + b) = hessian (realPrims caller) S (j * S.d + b) (i * S.d + a) := by
+  rw [C11_assembly caller S hm i j a b hi hj ha hb, C11_assembly caller S hm j i b a hj hi hb ha]
+  unfold specD specH
+  by_cases hij : i = j
+  · subst hij
+    simp only [if_true, sumRange_eq]
+    congr 1
+    exact Finset.sum_congr rfl fun k _ => by rw [block_symm_ab caller S i k a b]
+  · have hji : ¬ j = i := fun e => hij e.symm
+    simp only [hij, hji, if_false]
+    rw [inCut_symm caller S hanti hpar i j, block_swap caller S hanti hpar i j a b, mul_comm]
+
+/-! ### translations -/
+
+theorem specH_row_sum (n : ℕ) (cut : ℕ → ℕ → Bool) (B : ℕ → ℕ → ℕ → ℕ → ℝ) (i a b : ℕ) (hi : i < n) :
+    ∑ j ∈ range n, specH n cut B i a j b = 0 := by
+  unfold specH
+  rw [sumRange_eq]
+  set T := ∑ k ∈ range n, (if k ≠ i ∧ cut i k = true then B i k a b else 0) with hT
+  have h1 : ∀ j ∈ range n, (if i = j then T else if cut i j = true then - B i j a b else 0)
+      = (if i = j then T else 0) + - (if j ≠ i ∧ cut i j = true then B i j a b else 0) := by
+    intro j _
+    by_cases h : i = j
+    · subst h; simp
+    · have : j ≠ i := fun e => h e.symm
+      by_cases hc : cut i j = true <;> simp [h, this, hc]
+  rw [Finset.sum_congr rfl h1, Finset.sum_add_distrib, Finset.sum_ite_eq, if_pos (mem_range.mpr hi),
+    Finset.sum_neg_distrib, ← hT]
+  ring
+
+/-- **translations**: the saved matrix annihilates the mass-weighted uniform translation along every axis `b`
+(row `(i, a)` of `D · t_b`, `t_b = (√m_j δ_{cb})_{(j,c)}`) — any periodicity mask, in particular full periodicity -/
+theorem C11_translations (caller : ℝ → ℝ → ℝ → ℝ → ℝ × ℝ × ℝ) (S : Sys ℝ) (hm : ∀ i < S.n, 0 < massOf S i)
+    (i a b : ℕ) (hi : i < S.n) (ha : a < S.d) (hb : b < S.d) :
+    ∑ j ∈ range S.n, hessian (realPrims caller) S (i * S.d + a) (j * S.d + b) * Real.sqrt (massOf S j) = 0 := by
+  have h1 : ∀ j ∈ range S.n, hessian (realPrims caller) S (i * S.d + a) (j * S.d + b) * Real.sqrt (massOf S j)
+      = specH S.n (inCut (realPrims caller) S) (block (realPrims caller) S) i a j b / Real.sqrt (massOf S i) := by
+    intro j hj
+    have hj' := mem_range.mp hj
+    rw [C11_assembly caller S hm i j a b hi hj' ha hb]
+    unfold specD
+    have h1 : Real.sqrt (massOf S i) ≠ 0 := (Real.sqrt_pos.mpr (hm i hi)).ne'
+    have h2 : Real.sqrt (massOf S j) ≠ 0 := (Real.sqrt_pos.mpr (hm j hj')).ne'
+    field_simp
+  rw [Finset.sum_congr rfl h1, ← Finset.sum_div, specH_row_sum _ _ _ _ _ _ hi, zero_div]
+
+/-! ### participation ratio, frequencies -/
+
+/-- **participation ratio**: for every non-zero vector field on n ≥ 1 particles in any dimension, 0 < PR ≤ 1 -/
+theorem C11_pr_range (n d : ℕ) (v : ℕ → ℕ → ℝ) (hv : ∃ i < n, ∃ k < d, v i k ≠ 0) :
+    0 < pr (fun m => (m : ℝ)) n d v ∧ pr (fun m => (m : ℝ)) n d v ≤ 1 := by
+  obtain ⟨i0, hi0, k0, hk0, hne⟩ := hv
+  have hn : (0 : ℝ) < n := by exact_mod_cast (by omega : 0 < n)
+  unfold pr
+  simp only [sumRange_eq]
+  set w : ℕ → ℝ := fun i => ∑ k ∈ range d, v i k * v i k with hw
+  have hw0 : ∀ i, 0 ≤ w i := fun i => Finset.sum_nonneg fun k _ => mul_self_nonneg _
+  have hwi : 0 < w i0 := by
+    apply Finset.sum_pos' (fun k _ => mul_self_nonneg _)
+    exact ⟨k0, mem_range.mpr hk0, mul_self_pos.mpr hne⟩
+  have hS : 0 < ∑ i ∈ range n, w i :=
+    Finset.sum_pos' (fun i _ => hw0 i) ⟨i0, mem_range.mpr hi0, hwi⟩
+  have hQ : 0 < ∑ i ∈ range n, w i * w i :=
+    Finset.sum_pos' (fun i _ => mul_self_nonneg _) ⟨i0, mem_range.mpr hi0, mul_pos hwi hwi⟩
+  have hcs : (∑ i ∈ range n, w i) ^ 2 ≤ n * ∑ i ∈ range n, w i ^ 2 := by
+    have := sq_sum_le_card_mul_sum_sq (s := range n) (f := w)
+    simpa using this
+  have hden : 0 < (∑ i ∈ range n, w i * w i) * (n : ℝ) := mul_pos hQ hn
+  constructor
+  · exact mul_pos (one_div_pos.mpr hden) (mul_pos hS hS)
+  · rw [one_div, inv_mul_le_iff₀ hden, mul_one]
+    calc (∑ i ∈ range n, w i) * (∑ i ∈ range n, w i) = (∑ i ∈ range n, w i) ^ 2 := by ring
+      _ ≤ n * ∑ i ∈ range n, w i ^ 2 := hcs
+      _ = (∑ i ∈ range n, w i * w i) * n := by
+          rw [mul_comm]; congr 1; exact Finset.sum_congr rfl fun i _ => by ring
+
+/-- **frequencies**: the regenerated `np.where(evals > 0, np.sqrt(evals), evals)`: a positive eigenvalue is reported as its
+positive square root, a non-positive one is passed through -/
+theorem C11_frequencies (lam : ℝ) :
+    (0 < lam → GenR.Hess.frequencies lam ^ 2 = lam ∧ 0 < GenR.Hess.frequencies lam) ∧
+    (lam ≤ 0 → GenR.Hess.frequencies lam = lam) := by
+  unfold GenR.Hess.frequencies
+  constructor
+  · intro h
+    simp only [gt_iff_lt, h, decide_true, if_true]
+    exact ⟨Real.sq_sqrt h.le, Real.sqrt_pos.mpr h⟩
+  · intro h
+    have : ¬ 0 < lam := not_lt.mpr h
+    simp [this]
+
+/-- the regenerated structural facts the hand-written control structure of `Pms.Hess.step/assemble/block/pr` relies on:
+slice targets and operators of the two assembly statements, loop headers, unpacking of `Rji`, data flow of the pair
+call, the statements of `participation_ratio`, what is diagonalised and written -/
 theorem C11_source_shape :
     Pms.Gen.HessTab.assembly =
       [("+=", ["index_i_0", "index_i_1", "index_i_0", "index_i_1"]),
        ("=", ["index_i_0", "index_i_1", "index_j_0", "index_j_1"])] ∧
-    Pms.Gen.HessTab.loops = ["i in range(nparticle)", "j in range(nparticle)"] := by
-  decide
+    Pms.Gen.HessTab.loops = ["i in range(nparticle)", "j in range(nparticle)"] ∧
+    Pms.Gen.HessTab.unpack2 = ["x", "y"] ∧ Pms.Gen.HessTab.unpack3 = ["x", "y", "z"] ∧
+    Pms.Gen.HessTab.zDefault = "0" ∧ Pms.Gen.HessTab.rDef = "np.linalg.norm(Rji)" ∧
+    Pms.Gen.HessTab.pairReturn = "(dudr2i, dudr2j)" ∧
+    Pms.Gen.HessTab.entryNames = ["xi_xi", "xi_yi", "yi_yi", "xi_zi", "yi_zi", "zi_zi"] ∧
+    Pms.Gen.HessTab.perParticle = ["RJI = positions[i] - positions",
+      "RJI = remove_pbc(RJI, self.snapshot.hmatrix, self.ppp)", "distance = np.linalg.norm(RJI, axis=1)"] ∧
+    Pms.Gen.HessTab.pairArgs = [("r", "distance[j]"), ("epsilon", "self.epsilons[itype, jtype]"),
+      ("sigma", "self.sigmas[itype, jtype]"), ("r_c", "self.r_cuts[itype, jtype]"), ("shift", "self.shiftpotential")] ∧
+    Pms.Gen.HessTab.dudrsCall = "pair_interaction.caller(interaction_params)" ∧
+    Pms.Gen.HessTab.pairMatrixCall = "self.pair_matrix(RJI[j], dudrs)" ∧
+    Pms.Gen.HessTab.hessianInit = "np.zeros((self.ndim * nparticle, self.ndim * nparticle))" ∧
+    Pms.Gen.HessTab.eigCall = "evals, evecs = np.linalg.eigh(hessian_matrix)" ∧
+    Pms.Gen.HessTab.prLoop =
+      "i in range(evecs.shape[1]): PR[i] = participation_ratio(evecs[:, i].reshape(nparticle, self.ndim))" ∧
+    Pms.Gen.HessTab.csvWrite =
+      ["pd.DataFrame({'omega': frequencies, 'PR': PR}).to_csv(outputfile + '.omega_PR.csv', index=False)"] ∧
+    Pms.Gen.HessTab.participationRatio = ["num_of_particles = vector.shape[0]",
+      "value_PR = 1.0 / (np.sum(np.square((vector * vector).sum(axis=1))) * num_of_particles)",
+      "value_PR *= np.square((vector * vector).sum())", "return value_PR"] ∧
+    Pms.Gen.HessTab.initStores = [("snapshot", "snapshot"), ("masses", "masses"), ("epsilons", "epsilons"),
+      ("sigmas", "sigmas"), ("r_cuts", "r_cuts"), ("ppp", "ppp"), ("ndim", "len(ppp)"),
+      ("shiftpotential", "shiftpotential")] ∧
+    (∀ i j d : ℕ, Pms.Gen.HessTab.index_i_0 i j d 0 0 = i * d ∧ Pms.Gen.HessTab.index_j_0 i j d (i * d) 0 = j * d ∧
+      Pms.Gen.HessTab.index_i_1 i j d (i * d) (j * d) = i * d + d ∧ Pms.Gen.HessTab.index_j_1 i j d (i * d) (j * d) = j * d + d) := by
+  refine ⟨by decide, by decide, by decide, by decide, by decide, by decide, by decide, by decide, by decide, by decide,
+    by decide, by decide, by decide, by decide, by decide, by decide, by decide, by decide, ?_⟩
+  intro i j d
+  exact ⟨rfl, rfl, rfl, rfl⟩
 
 end Pms.C11
